@@ -13,6 +13,8 @@ Sub-checks (all exhaustive over the stated finite spaces, all on the real code i
   bisc_trunc E5  every byte prefix of written BiSC files.
   db_trunc   E5  every byte prefix of stored automaton files.
   malformed  E1  fixed list of malformed / missing inputs of read_bisc_file.
+  names      E1  the data-set name is an input: every ordered pair of names from an alphabet of dotted,
+                 prefix-related, spaced, ".json"-ending, directory-qualified names, written and read back.
   elsewhere  E1  a path names one file: never-written files named like the shipped data sets under
                  every path form; one base name written to several directories.
   roundtrip  E1  write -> read for the twelve named library predicates, and every ordered pair
@@ -1126,6 +1128,63 @@ def shard_elsewhere(shard):
 
 
 # --------------------------------------------------------------------------------------------
+# "names": the name / path of the persisted artefact is part of the input
+# --------------------------------------------------------------------------------------------
+
+# characters and forms that path manipulations treat specially: dots (one, several, doubled, leading,
+# trailing), names that are prefixes of one another up to a dot or an underscore, a name ending in
+# ".json", names that look like the suffix the writer appends, spaces, a dash, non-ASCII letters, and a
+# directory component with a dot (with a plain and a dotted last component)
+NAME_ALPHABET = ["plain", "a.b", "a.b.c", "a..b", ".hidden", "a.", "run_0", "run_0.5", "run_0.5.1",
+                 "x.json", "a_good", "a_good_len3", "with space", "a-b", "n\u00e4me", "d.ot/plain", "d.ot/a.b"]
+NAME_DIRS = ("d.ot",)
+
+
+def _names_case(part, layer, n1, n2):
+    """Two data sets with different content are stored under the names n1, n2 (in that order) in one
+    fresh directory; both are read back: each read returns exactly what was last stored under THAT name.
+    layer 1: write_bisc_files(n, prop, name) / read_bisc_file(name_<kind>_len<n>)
+    layer 2: write_json_to_file(dict, stem + ".json") / read_bisc_file(stem)"""
+    Perm, _, B = _lib()
+    _scratch("names", NAME_DIRS)
+    _reset()
+    n = 3
+    case = {"layer": layer, "names": [n1, n2]}
+    props = [0, 4]        # avoids231, avoids132: same byte length, different content
+    last = {}
+    for nm, pi in ((n1, props[0]), (n2, props[1])):
+        if layer == 1:
+            _, exc, out = _call(B.write_bisc_files, n, PROPS[pi][1], nm)
+            for kind in ("good", "bad"):
+                last["%s_%s_len%d" % (nm, kind, n)] = _expected(PROPS[pi][1], n, kind)
+        else:
+            exp = _expected(PROPS[pi][1], n, "good")
+            _, exc, out = _call(B.write_json_to_file, {k: [list(p) for p in v] for k, v in exp.items()},
+                                nm + ".json")
+            last[nm] = exp
+        if exc is not None or out.strip():
+            part.violation("names", case, {"why": "write failed", "name": nm, "exception": repr(exc),
+                                           "printed": out[:200]})
+            return
+    for stem in sorted(last):
+        v, oc = _check_read(B, Perm, stem, "data", last[stem])
+        part.outcomes.add("names:" + oc)
+        if v is not None:
+            part.violation("names", case, v)
+            return
+    special = sum(1 for nm in (n1, n2) if nm != "plain")
+    part.add(1, 1 if special else 0)
+
+
+def shard_names(shard):
+    part = Partial()
+    for layer, n1, n2 in shard:
+        _case(part, _names_case, layer, n1, n2)
+    os.chdir(VERIF)
+    return part
+
+
+# --------------------------------------------------------------------------------------------
 # the twelve named predicates of the library
 # --------------------------------------------------------------------------------------------
 
@@ -1595,7 +1654,8 @@ def run(ctx, only=None):
         stems = _shipped_stems()
         orders = [list(o) for r in range(len(ELSEWHERE_LOCS) + 1) for o in itertools.permutations(ELSEWHERE_LOCS, r)]
         cases = [("missing", st) for st in stems] + [("directories", o) for o in orders]
-        ctx.pmap(shard_elsewhere, [cases[i::NPROC] for i in range(NPROC)])
+        per = max(1, math.ceil(len(cases) / (NPROC * 2)))
+        ctx.pmap(shard_elsewhere, [cases[i:i + per] for i in range(0, len(cases), per)])
         ctx.bounds["elsewhere"] = {
             "missing": "never-written file named like each of the %d shipped data files x path forms %s"
                        % (len(stems), ELSEWHERE_FORMS),
@@ -1604,6 +1664,17 @@ def run(ctx, only=None):
                            % (ELSEWHERE_LOCS, len(orders))}
         traces += ctx.evals - e0
         ctx.section("elsewhere", evaluations=ctx.evals - e0)
+    if want("names"):
+        e0 = ctx.evals
+        # single names first (n1 = n2: plain overwrite), then the pairs: the first violation is the simplest
+        for group in ([(ly, a, a) for ly in (1, 2) for a in NAME_ALPHABET],
+                      [(ly, a, b) for ly in (1, 2) for a in NAME_ALPHABET for b in NAME_ALPHABET if a != b]):
+            per = max(1, math.ceil(len(group) / (NPROC * 2)))      # contiguous: results merge simplest-first
+            ctx.pmap(shard_names, [group[i:i + per] for i in range(0, len(group), per)])
+        ctx.bounds["names"] = {"alphabet": NAME_ALPHABET, "cases": "every ordered pair (n1 = n2 included) x 2 layers "
+                               "(write_bisc_files / write_json_to_file), n = 3, both read back"}
+        traces += ctx.evals - e0
+        ctx.section("names", evaluations=ctx.evals - e0)
     if want("roundtrip"):
         e0 = ctx.evals
         nmax = 5 if quick else 6
@@ -1668,6 +1739,8 @@ def replay(ctx, rec):
             _case(ctx, _db_trunc_case, tuple(case["perm"]), case.get("prefix_bytes"))
         elif sub == "malformed":
             _case(ctx, _malformed_case, case["input"])
+        elif sub == "names":
+            _case(ctx, _names_case, case["layer"], case["names"][0], case["names"][1])
         elif sub == "elsewhere":
             if case["family"] == "missing":
                 _case(ctx, _elsewhere_missing_case, case["stem"])
